@@ -96,7 +96,7 @@ func c13GoValue(desc string) interface{} {
 	return desc
 }
 
-var c13GoValues = []string{"nil", "int", "negint", "bigint", "uint64max", "float", "nan", "string", "empty-string", "numeric-string", "bool", "bytes", "strings", "empty-slice", "mixed-slice", "nested-slice", "map", "struct", "ptr", "nilptr", "chan", "func", "json-number", "bad-json-number", "ints", "floats", "error"}
+var c13GoValues = []string{"nil", "int", "negint", "bigint", "uint64max", "float", "nan", "string", "empty-string", "numeric-string", "bool", "bytes", "strings", "empty-slice", "mixed-slice", "nested-slice", "map", "struct", "ptr", "nilptr", "chan", "func", "json-number", "bad-json-number", "ints", "floats", "error", "delete-the-leaf"}
 
 func c13Run(c c13Case, o *hx.Obs) {
 	root := c.Module.Root()
@@ -216,7 +216,11 @@ func c13Run(c c13Case, o *hx.Obs) {
 				rerr = fmt.Errorf("harness: leaf: %v", ferr)
 				return
 			}
-			rerr = s2.SetValue(c13GoValue(c.Value))
+			if c.Value == "delete-the-leaf" {
+				rerr = s2.Delete() // a selection on a leaf can be asked to delete as any other
+			} else {
+				rerr = s2.SetValue(c13GoValue(c.Value))
+			}
 		}
 	})
 	if panicked {
